@@ -244,7 +244,7 @@ func c07Loop(c *Ctx, r *Report, ci *clientInfo, control bool) map[string]bool {
 	// expectedLen and data come from this call's request
 	var doCall *CallRec
 	for _, cr := range ci.an.calls {
-		if cr.frame == ci.top && cr.callee == ci.do {
+		if ci.inTop(cr) && cr.callee == ci.do {
 			doCall = cr
 		}
 	}
@@ -252,7 +252,7 @@ func c07Loop(c *Ctx, r *Report, ci *clientInfo, control bool) map[string]bool {
 	var expected Aff
 	if doCall != nil && len(doCall.args) == 4 {
 		for _, cr := range ci.an.calls {
-			if cr.frame != ci.top || cr.method == "" {
+			if !ci.inTop(cr) || cr.method == "" {
 				continue
 			}
 			if p, ok := cr.recv.(AOpaque); !ok || p.key != ci.Do.Params[2].Name() {
